@@ -100,8 +100,7 @@ def drive(ctx):
     for zn in ctx.mine(real_zone_names(ctx)) + ctx.mine(synth_zone_names(ctx)):
         zr = {"n": zn, "fo": 0}
         an = anomalies(ctx, zn)
-        if q:
-            an = pick(rnd, an, 6 if full else 2)
+        an = pick(rnd, an, (6 if full else 2) if q else 20)
         for (kind, ws, we, _s, _b, _a) in an:
             for (ls, us) in ((ws, 0), ((ws + we) // 2, 7), (we - 1, 999999), (we, 0), (ws - 1, 0)):
                 tw = wall_of_localsec(ls, us)
